@@ -35,6 +35,8 @@ pub enum Term {
     TupleVariant(&'static str, &'static str, Vec<Term>),
     Map(Vec<(Term, Term)>),
     MapKV(Vec<(Term, Term)>),
+    /// only as the value of a struct field: the field is announced with skip_field
+    Skipped,
     Struct(&'static str, Vec<(&'static str, Term)>),
     StructVariant(&'static str, &'static str, Vec<(&'static str, Term)>),
     Fail(String),
@@ -114,17 +116,26 @@ impl Serialize for Term {
             Term::Struct(n, fs) => {
                 let mut q = s.serialize_struct(n, fs.len())?;
                 for (k, v) in fs {
-                    q.serialize_field(k, v)?;
+                    if let Term::Skipped = v {
+                        q.skip_field(k)?;
+                    } else {
+                        q.serialize_field(k, v)?;
+                    }
                 }
                 q.end()
             }
             Term::StructVariant(n, v, fs) => {
                 let mut q = s.serialize_struct_variant(n, 0, v, fs.len())?;
                 for (k, x) in fs {
-                    q.serialize_field(k, x)?;
+                    if let Term::Skipped = x {
+                        q.skip_field(k)?;
+                    } else {
+                        q.serialize_field(k, x)?;
+                    }
                 }
                 q.end()
             }
+            Term::Skipped => Err(S::Error::custom("a skipped field has no value")),
             Term::Fail(m) => Err(S::Error::custom(m)),
             Term::HumanReadable(a, b) => {
                 if s.is_human_readable() {
@@ -189,6 +200,7 @@ pub fn term_from_model(j: &J) -> Result<Term, String> {
         "tuple" => Term::Tuple(xs("xs")?),
         "tuple_struct" => Term::TupleStruct(st(&j["name"])?, xs("xs")?),
         "tuple_variant" => Term::TupleVariant(st(&j["name"])?, st(&j["variant"])?, xs("xs")?),
+        "skipped" => Term::Skipped,
         "mapkv" => Term::MapKV(j["kv"].as_array().ok_or("kv")?.iter().map(|kv| Ok((term_from_model(&kv[0])?, term_from_model(&kv[1])?))).collect::<Result<_, String>>()?),
         "map" => Term::Map(j["kv"].as_array().ok_or("kv")?.iter().map(|kv| Ok((term_from_model(&kv[0])?, term_from_model(&kv[1])?))).collect::<Result<_, String>>()?),
         "struct" => Term::Struct(st(&j["name"])?, fields()?),
@@ -267,11 +279,26 @@ pub fn replay_ser(case: &J, rep: &mut Report) {
             }
         }
     }
+    // (a') once more: the image is a function of the data, not of what was serialized before
+    if verdict.is_ok() {
+        let again = obs_of(catch_unwind(AssertUnwindSafe(|| term.serialize(ValueSerializer))).map_err(panic_msg));
+        verdict = matches(exp, &again).map_err(|w| format!("second serialize(ValueSerializer) of the same data: {w}"));
+    }
     // (b) RuleSet::evaluate(&term) with the rule `facts`: same outcome as evaluate_value(image); the call as a
     // whole fails only when the input cannot be serialized
     if verdict.is_ok() {
-        let rs = ruleset().with_rule(Rule::new("whole", BTreeMap::new(), Expr::reff("facts"))).unwrap().build();
-        let r = block_on(rs.evaluate(&term));
+        // ONE ruleset per thread for all cases, and the input object re-used in place: first a decoy is evaluated, then the
+        // same variable is overwritten with the real data and evaluated (what evaluate(&T) returns is a function of
+        // the data it is given now, not of an earlier call or of where the data lives)
+        thread_local! {
+            static WHOLE: RuleSet = ruleset().with_rule(Rule::new("whole", BTreeMap::new(), Expr::reff("facts"))).unwrap().build();
+        }
+        let r = WHOLE.with(|rs| {
+            let mut slot = Term::Str("decoy".to_string());
+            let _ = block_on(rs.evaluate(&slot));
+            slot = term.clone();
+            block_on(rs.evaluate(&slot)).map(|r| r.map(|outs| outs.into_iter().map(|o| o.value).collect::<Vec<_>>()))
+        });
         verdict = match (r, exp["ok"].as_bool() == Some(true)) {
             (Err(p), _) => Err(format!("RuleSet::evaluate panicked: {p}")),
             (Ok(Err(e)), false) => match classify(&e) {
@@ -284,7 +311,7 @@ pub fn replay_ser(case: &J, rep: &mut Report) {
                 if outs.len() != 1 {
                     Err(format!("{} outcomes", outs.len()))
                 } else {
-                    let o = match &outs[0].value {
+                    let o = match &outs[0] {
                         Ok(v) => Obs::Ok(v.clone()),
                         Err(e) => classify(e),
                     };
